@@ -121,3 +121,87 @@ class C05(Prop):
         key = "".join(sorted(case["h1"])) if s1[0] != 0 else None
         tags = [f"cat={s1[0]}", "tie" if s1 == s2 and sorted(case["h1"]) != sorted(case["h2"]) else "cmp"]
         return Verdict(agree, holds, "; ".join(why[:4]), key, tags)
+
+
+def dense_deal(rng, nboard=5, sizes=(4, 2)):
+    """board + disjoint hands from a dense sub-deck (few ranks / consecutive ranks across the ace / one-two suits)"""
+    need = nboard + sum(sizes)
+    for _ in range(20):
+        style = rng.randrange(7)
+        if style == 0:
+            ranks = rng.sample(RANKS, rng.randrange(3, 6)); pool = [c for c in DECK if c[0] in ranks]
+        elif style == 1:
+            i = rng.randrange(-1, 8)
+            win = [RANKS[j] for j in range(i, min(13, i + 7))] if i >= 0 else ["A", "2", "3", "4", "5", "6", "7"]
+            pool = [c for c in DECK if c[0] in win]
+        elif style == 2:
+            s = rng.sample(SUITS, 2); pool = [c for c in DECK if c[1] in s]
+        elif style == 3:
+            pool = [c for c in DECK if c[0] in "A2345TJQK"]
+        elif style == 4:
+            s = rng.choice(SUITS); win = rng.sample(RANKS, 9)
+            pool = [c for c in DECK if c[1] == s or c[0] in win[:3]]
+        else:
+            pool = list(DECK)
+        if len(pool) >= need:
+            cs = rng.sample(pool, need)
+            out = [cs[:nboard]]
+            k = nboard
+            for sz in sizes:
+                out.append(cs[k:k + sz]); k += sz
+            return out
+    cs = rng.sample(DECK, need)
+    return [cs[:nboard], cs[nboard:nboard + sizes[0]], cs[nboard + sizes[0]:]]
+
+
+class C06(Prop):
+    pid = "C06"
+    title = "Omaha (fast and brute force) and Hold'em strength = best legal five-card hand (2+3 / any 5 of 7)"
+    rule = ("structured deals from dense sub-decks (paired/tripled boards, flush boards, straight windows across the ace, "
+            "quads), board 5 + Omaha hand 4 + Hold'em hand 2 pairwise disjoint; thorough: 16 shards x 4 min of the same plus "
+            "uniform deals; non-trivial = best Omaha hand is at least a pair; distinct by sorted (board, hand)")
+    batch = 800
+    quick_seconds = 25
+    trusted_base = ["Python tuple comparison = lexicographic comparison of key lists"]
+    assumptions = ["board and hands are distinct standard cards, pairwise disjoint"]
+
+    def setup(self):
+        super().setup()
+        from card_utils.games.poker.community.omaha import utils as ou, brute_force as ob
+        from card_utils.games.poker.community.holdem import utils as hu, brute_force as hb
+        self.ou, self.ob, self.hu, self.hb = ou, ob, hu, hb
+
+    def generate(self, rng, tier, shard):
+        while True:
+            b, h4, h2 = dense_deal(rng)
+            if rng.random() < 0.3:
+                rng.shuffle(b); rng.shuffle(h4)
+            yield {"board": b, "h4": h4, "h2": h2}
+
+    def impl(self, case):
+        def run(f, *a):
+            try:
+                return list(f(*a))
+            except Exception as e:
+                return "!" + type(e).__name__
+        b, h4, h2 = list(case["board"]), list(case["h4"]), list(case["h2"])
+        return {"fast": run(self.ou.get_hand_strength_fast, b, h4), "brute": run(self.ob.brute_force_omaha_hi_rank, b, h4),
+                "holdem": run(self.hu.get_hand_strength_fast, b, h2), "hbrute": run(self.hb.brute_force_holdem_rank, b, h2)}
+
+    def request(self, case, io):
+        return {"op": "strength", "cases": [[case["board"], case["h4"], case["h2"]]]}
+
+    def judge(self, case, io, mo):
+        m = mo["out"][0]
+        why = []; agree = True; holds = True
+        for k, mk in (("fast", "fast"), ("brute", "brute"), ("holdem", "holdem"), ("hbrute", "holdem")):
+            if io[k] != m[mk]:
+                agree = False; why.append(f"{k}: impl {io[k]} model {m[mk]}")
+        for k, sk, what in (("fast", "ospec", "optimised Omaha"), ("brute", "ospec", "brute-force Omaha"),
+                            ("holdem", "hspec", "Hold'em"), ("hbrute", "hspec", "brute-force Hold'em")):
+            if io[k] != m[sk]:
+                holds = False
+                why.append(f"{what} strength of board {case['board']} hand {case['h4'] if 'Omaha' in what else case['h2']} is {io[k]}, "
+                           f"the best legal five-card hand has key {m[sk]}")
+        key = "".join(sorted(case["board"])) + "|" + "".join(sorted(case["h4"])) if m["ospec"][0] >= 1 else None
+        return Verdict(agree, holds, "; ".join(why[:4]), key, [f"omaha-cat={m['ospec'][0]}", f"holdem-cat={m['hspec'][0]}"])
